@@ -1,4 +1,5 @@
 use crate::common::Ctx;
+pub mod c13;
 pub mod c18;
 pub mod c10;
 pub mod c19;
@@ -21,6 +22,7 @@ pub fn dispatch(ctx: &mut Ctx) -> bool {
         "C19" => c19::run(ctx),
         "C10" => c10::run(ctx),
         "C18" => c18::run(ctx),
+        "C13" => c13::run(ctx),
         _ => return false,
     }
     true
